@@ -59,3 +59,26 @@ def load_model_cd(name='cd_sym'):
 def load_real_cd():
   from fedjax.core import client_datasets
   return client_datasets
+
+
+_STACK = {}
+
+
+def load_model_stack():
+  """client_datasets, federated_data, in_memory_federated_data loaded from the real sources over np_lite."""
+  if _STACK:
+    return _STACK
+  import fedjax.core.federated_data  # noqa: real packages imported first
+  import xload
+  cdm = load_model_cd('cd_sym')
+  fdm = xload.load_real('fedjax/core/federated_data.py', 'fd_sym', {'numpy': np_lite},
+                        attr_overrides={('fedjax.core', 'client_datasets'): cdm})
+  imm = xload.load_real('fedjax/core/in_memory_federated_data.py', 'imfd_sym', {'numpy': np_lite},
+                        attr_overrides={('fedjax.core', 'client_datasets'): cdm, ('fedjax.core', 'federated_data'): fdm})
+  _STACK.update(cd=cdm, fd=fdm, im=imm)
+  return _STACK
+
+
+def load_real_stack():
+  from fedjax.core import client_datasets, federated_data, in_memory_federated_data
+  return dict(cd=client_datasets, fd=federated_data, im=in_memory_federated_data)
